@@ -144,7 +144,7 @@ func (ms *Modules) resolveIdentities() []error {
 	// from them, and compile them into a "fully resolved" map that means that
 	// we can look them up based on the 'real' prefix of the module and the
 	// name of the identity.
-	for _, mod := range ms.Modules {
+	for _, mod := range inKeyOrder(ms.Modules) {
 		for _, i := range mod.Identities() {
 			keyName, r := newResolvedIdentity(mod, i)
 			ms.typeDict.identities.dict[keyName] = *r
